@@ -1,6 +1,7 @@
 use crate::common::CheckSpec;
 
 pub mod c01;
+pub mod c04;
 pub mod c02;
 pub mod c03;
 pub mod c05;
@@ -25,6 +26,7 @@ pub mod smoke;
 pub fn all() -> Vec<CheckSpec> {
     vec![
         c01::spec(),
+        c04::spec(),
         c02::spec(),
         c03::spec(),
         c05::spec(),
